@@ -54,6 +54,7 @@ func propC09(c *Ctx) string {
 	c09Cleanup(c, v, "C09")
 	c.assertRule("C09/ASSERT", 4, "client", "client/future")
 	c09WaitGo(c, v, "C09")
+	c09WaitLock(c, v, "C09")
 	dieRule(c, v, "C09/DIE", "client", 8)
 	errchkRule(c, v, "C09/ERRCHK", "client", 20)
 	c09Future(c, v)
@@ -948,6 +949,7 @@ func propC17(c *Ctx) string {
 	c17Queue(c, v)
 	c.assertRule("C17/ASSERT", 4, "client")
 	c09WaitGo(c, v, "C17")
+	c09WaitLock(c, v, "C17")
 	dieRule(c, v, "C17/DIE", "client", 8)
 	c.NotDecide("behaviour over failure schedules", "Start/Stop races from several goroutines", "backoff timing", "that the broker accepts the resubscription")
 	c.Assume("topic.Tree Set/Empty/All semantics (C05)", "future.Attach propagates completion (client/future)")
@@ -1440,4 +1442,183 @@ func (c *Ctx) decoderRejectsInvalidID(r *Rule, typ string) bool {
 	r.Check(key, ok, helper.Decl.Pos(), len(in.Traces),
 		"every successful decode stores an id that passed ID.Valid(): a PUBREL with id 0 never reaches the handler, so the handler's id-invalid branch is outside the quantifier", c.witness(bad)...)
 	return ok
+}
+
+// ---------------------------------------------------------------- WAITLOCK
+
+// c09WaitLock: a mutex that is held while an API function waits for the tracked goroutines (tomb.Wait) or for
+// futures those goroutines resolve (Store.Await, Future.Wait) must never be acquired by code those goroutines
+// can reach: the goroutine would block on the mutex, the waiter on the goroutine — Close/Disconnect never
+// return and the futures are never cancelled. Lock order rule over package client: lockset (LOCK engine) at
+// every wait site × in-package call-graph reachability (function literals included) from the tomb.Go roots.
+func c09WaitLock(c *Ctx, v *vocab, prop string) {
+	r := c.Rule(prop+"/WAITLOCK", "LOCK+REACH", "no mutex held at a tomb.Wait / Store.Await / Future.Wait site in package client is acquired by a function reachable from a tomb.Go root (processor, pinger, supervisor, dispatcher): waiting for a goroutine that needs the waiter's lock never returns", 2)
+	isWait := func(fi *FuncInfo, e *Event) bool {
+		if e.Kind != EvCall {
+			return false
+		}
+		f, ok := e.Callee.(*types.Func)
+		if !ok {
+			return false
+		}
+		if isTomb(f, "Wait") {
+			return true
+		}
+		if f.Pkg() != nil && strings.HasSuffix(f.Pkg().Path(), "client/future") && (f.Name() == "Await" || f.Name() == "Wait") {
+			return true
+		}
+		return false
+	}
+	res := c.lockAnalysisEv("client", map[*types.Var]guardSpec{}, nil, isWait)
+	// goroutine roots per tomb: the functions handed to X.tomb.Go, keyed by the tomb field
+	rootsOf := map[*types.Var][]*FuncInfo{}
+	nroots := 0
+	for _, fi := range c.P.LibFuncs("client") {
+		if fi.Decl.Body == nil {
+			continue
+		}
+		h := &Interp{P: c.P, Info: fi.Pkg.TypesInfo}
+		ast.Inspect(fi.Decl.Body, func(m ast.Node) bool {
+			call, ok := m.(*ast.CallExpr)
+			if !ok || len(call.Args) != 1 {
+				return true
+			}
+			sel, ok := ast.Unparen(call.Fun).(*ast.SelectorExpr)
+			if !ok {
+				return true
+			}
+			if f, ok := fi.Pkg.TypesInfo.Uses[sel.Sel].(*types.Func); !ok || !isTomb(f, "Go") {
+				return true
+			}
+			tf, _ := h.objOf(sel.X).(*types.Var)
+			if as, ok := ast.Unparen(call.Args[0]).(*ast.SelectorExpr); ok && tf != nil {
+				if g, ok := fi.Pkg.TypesInfo.Uses[as.Sel].(*types.Func); ok && c.P.ByObj[g] != nil {
+					rootsOf[tf] = append(rootsOf[tf], c.P.ByObj[g])
+					nroots++
+				}
+			}
+			return true
+		})
+	}
+	if nroots < 2 {
+		r.Undecided("client goroutine roots", 0, fmt.Sprintf("found %d tomb.Go roots, expected at least processor and pinger", nroots))
+		return
+	}
+	// reachability from the roots of one tomb, and the mutexes each reachable function locks
+	lockersOf := func(tf *types.Var) (map[*types.Var][]string, int) {
+		reach := map[*types.Func]*FuncInfo{}
+		var via func(fi *FuncInfo)
+		via = func(fi *FuncInfo) {
+			if reach[fi.Obj] != nil || fi.Decl.Body == nil {
+				return
+			}
+			reach[fi.Obj] = fi
+			ast.Inspect(fi.Decl.Body, func(m ast.Node) bool {
+				switch x := m.(type) {
+				case *ast.CallExpr:
+					if g, ok := typeutilCallee(fi.Pkg.TypesInfo, x).(*types.Func); ok {
+						if h := c.P.ByObj[g]; h != nil && h.Pkg == fi.Pkg {
+							via(h)
+						}
+					}
+				case *ast.SelectorExpr:
+					// method values handed on (tomb.Go(c.pinger), finish.Do(...))
+					if g, ok := fi.Pkg.TypesInfo.Uses[x.Sel].(*types.Func); ok {
+						if h := c.P.ByObj[g]; h != nil && h.Pkg == fi.Pkg {
+							if sel, ok := fi.Pkg.TypesInfo.Selections[x]; ok && sel.Kind() == types.MethodVal {
+								via(h)
+							}
+						}
+					}
+				}
+				return true
+			})
+		}
+		for _, rt := range rootsOf[tf] {
+			via(rt)
+		}
+		lockers := map[*types.Var][]string{}
+		for _, fi := range reach {
+			h := &Interp{P: c.P, Info: fi.Pkg.TypesInfo}
+			ast.Inspect(fi.Decl.Body, func(m ast.Node) bool {
+				call, ok := m.(*ast.CallExpr)
+				if !ok {
+					return true
+				}
+				sel, ok := ast.Unparen(call.Fun).(*ast.SelectorExpr)
+				if !ok {
+					return true
+				}
+				f, ok := fi.Pkg.TypesInfo.Uses[sel.Sel].(*types.Func)
+				if !ok || f.Pkg() == nil || f.Pkg().Path() != "sync" || (f.Name() != "Lock" && f.Name() != "RLock") {
+					return true
+				}
+				if mo, _ := h.objOf(sel.X).(*types.Var); mo != nil {
+					lockers[mo] = append(lockers[mo], fi.Name)
+				}
+				return true
+			})
+		}
+		return lockers, len(reach)
+	}
+	// the tomb a wait site waits for: the receiver of tomb.Wait, or (futures) the tomb field of the struct
+	// whose method contains the wait
+	tombOf := func(w lockAccess) *types.Var {
+		h := &Interp{P: c.P, Info: w.fn.Pkg.TypesInfo}
+		if f, ok := w.ev.Callee.(*types.Func); ok && isTomb(f, "Wait") {
+			if sel, ok := ast.Unparen(w.ev.Call.Fun).(*ast.SelectorExpr); ok {
+				tf, _ := h.objOf(sel.X).(*types.Var)
+				return tf
+			}
+		}
+		sig := w.fn.Obj.Type().(*types.Signature)
+		if sig.Recv() == nil {
+			return nil
+		}
+		rt := sig.Recv().Type()
+		if p, ok := rt.(*types.Pointer); ok {
+			rt = p.Elem()
+		}
+		if st, ok := rt.Underlying().(*types.Struct); ok {
+			for i := 0; i < st.NumFields(); i++ {
+				if _, ok := rootsOf[st.Field(i)]; ok {
+					return st.Field(i)
+				}
+			}
+		}
+		return nil
+	}
+	seen := map[string]bool{}
+	n := 0
+	for _, w := range res.watched {
+		if len(w.held) == 0 {
+			continue
+		}
+		var ms []*types.Var
+		for m := range w.held {
+			ms = append(ms, m)
+		}
+		sort.Slice(ms, func(i, j int) bool { return ms[i].Name() < ms[j].Name() })
+		for _, m := range ms {
+			key := fmt.Sprintf("%s:%s under %s", w.fn.Name, types.ExprString(w.ev.Call.Fun), m.Name())
+			if seen[key] {
+				continue
+			}
+			seen[key] = true
+			n++
+			tf := tombOf(w)
+			if tf == nil {
+				r.Undecided(key, w.ev.Pos, "cannot tell which goroutine group this wait depends on")
+				continue
+			}
+			lockers, nreach := lockersOf(tf)
+			who := lockers[m]
+			sort.Strings(who)
+			r.Check(key, len(who) == 0, w.ev.Pos, nreach,
+				fmt.Sprintf("the wait is performed while %s is held, and goroutine-reachable code acquires it: %s", m.Name(), strings.Join(who, ", ")), c.witness(w.trace)...)
+		}
+	}
+	if n == 0 {
+		r.Undecided("client wait sites", 0, "no tomb.Wait/Await under a mutex found (Close/Disconnect reshaped?)")
+	}
 }
